@@ -59,6 +59,7 @@ fn palette_forms() -> Vec<Result<String, Cell>> {
         Ok("2".into()),
         Ok("16".into()),
         Ok("(- (- (expt 2 64) (expt 2 64)) 1)".into()),
+        Ok("(make-string 2 #\\a)".into()),
     ]
 }
 
